@@ -313,62 +313,7 @@ def run(rep: Report, tier: str) -> None:
                         "a cyclic dependency (NetworkXUnfeasible) must be reported as SemanticError 1-3-2-3"))
 
     # ---- R12.5 -----------------------------------------------------------------------------------------
-    mutated_in_visits: Dict[str, str] = {}
-    for c in [dag] + [P.cls(f"{DAGMOD}.HRDAGAnalyzer")]:
-        for mname, mf in c.methods.items():
-            if not mname.startswith("visit_") or mname in ("visit_Start", "visit_HRuleset"):
-                continue
-            for n in walk_no_nested(mf.node):
-                if isinstance(n, ast.Call) and isinstance(n.func, ast.Attribute) and n.func.attr in ("add", "append", "update", "extend", "remove", "discard"):
-                    b = n.func.value
-                    while isinstance(b, ast.Attribute) and not (isinstance(b.value, ast.Name) and b.value.id == "self"):
-                        b = b.value
-                    if isinstance(b, ast.Attribute) and isinstance(b.value, ast.Name) and b.value.id == "self":
-                        mutated_in_visits.setdefault(b.attr, mf.qualname)
-    if not mutated_in_visits:
-        raise AnalysisError("no per-statement accumulators found in DAGAnalyzer visit_* methods")
-    for loop_owner in (vs, P.func(f"{DAGMOD}.HRDAGAnalyzer.visit_HRuleset")):
-        gl = CFG(loop_owner.node)
-        # the statement visit inside the per-statement loop: self.visit(<loop variable>)
-        rec = []
-        for n in gl.nodes:
-            if n.kind != "stmt" or n.stmt is None:
-                continue
-            lp = getattr(n.stmt, "_parent", None)
-            while lp is not None and not isinstance(lp, ast.For):
-                lp = getattr(lp, "_parent", None)
-            if lp is None or not isinstance(lp.target, ast.Name):
-                continue
-            if any(src(c.func) == "self.visit" and c.args and src(c.args[0]) == lp.target.id for c in gl.calls_at(n)) \
-                    and _records_dependencies(P, loop_owner, lp):
-                rec.append(n)
-        if not rec:
-            raise AnalysisError(f"{loop_owner.qualname}: per-statement self.visit(<loop variable>) not found")
-        loop_node = getattr(rec[0].stmt, "_parent", None)
-        while loop_node is not None and not isinstance(loop_node, ast.For):
-            loop_node = getattr(loop_node, "_parent", None)
-        H = [n for n in gl.nodes if n.kind == "loop" and n.stmt is loop_node]
-        for attr, where in sorted(mutated_in_visits.items()):
-            def resets(n, attr=attr) -> bool:
-                if n.kind == "stmt" and isinstance(n.stmt, ast.Assign) and any(src(t) == f"self.{attr}" for t in n.stmt.targets):
-                    return True
-                for c in gl.calls_at(n):  # one level of self-method wrappers
-                    if isinstance(c.func, ast.Attribute) and isinstance(c.func.value, ast.Name) and c.func.value.id == "self":
-                        for tq in P.resolve_call(loop_owner, c)[:4]:
-                            hf = P.functions.get(tq)
-                            if hf and not hf.name.startswith("visit") and any(
-                                    isinstance(x, ast.Assign) and any(src(t) == f"self.{attr}" for t in x.targets) for x in hf.node.body):
-                                return True
-                return False
-            key = f"{loop_owner.name}/self.{attr}"
-            rep.instance("R12.5", key, nontrivial=True, sample={"loop": loop_owner.qualname, "accumulator": f"self.{attr}", "mutated_in": where})
-            for r0 in rec:
-                p = gl.path_avoiding(r0, lambda n: n in H or n is gl.exit, resets, follow_exc=False)
-                if p is not None:
-                    rep.add(Finding("R12.5", f"R12.5/{key}", loop_owner.module.rel, r0.lineno, loop_owner.qualname,
-                                    f"self.{attr} (filled by {where}) is not re-initialised between two statements: names collected for one "
-                                    f"statement leak into the analysis of every later-written statement", describe_path(p)))
-                    break
+    mutated_in_visits = per_statement_state(P, rep, "R12.5")
 
     # ---- R12.6 -----------------------------------------------------------------------------------------
     A = EffectAnalysis(P)
@@ -489,3 +434,68 @@ def unknown_resolution(P: Program, rep: Report, rule: str) -> None:
                             f"names read inside clauses ({label}): statements {sorted(want_inputs)} must get {sorted({v for vs in want_inputs.values() for v in vs})} as an input "
                             f"(dependency edge); got new inputs {got_inputs}, still unresolved {sorted(me.unknown_variables)}: a reader without the edge is ordered / scheduled as if the "
                             f"name were a component - it can run before its producer, or the producer's table is dropped before it runs"))
+
+
+def per_statement_state(P: Program, rep: Report, rule: str) -> Dict[str, str]:
+    """Per-statement analyser state (alias set, dependency accumulator) is re-initialised between statements on every path of the
+    statement loops.  Shared with C32: a join alias that survives into a later statement hides a dataset of the same name there;
+    the dataset is left out of the inputs, never loaded, and the run ends in DuckDB's `Table ... does not exist`."""
+    dag = P.cls(DAG)
+    vs = P.func(f"{DAG}.visit_Start")
+    mutated_in_visits: Dict[str, str] = {}
+    for c in [dag] + [P.cls(f"{DAGMOD}.HRDAGAnalyzer")]:
+        for mname, mf in c.methods.items():
+            if not mname.startswith("visit_") or mname in ("visit_Start", "visit_HRuleset"):
+                continue
+            for n in walk_no_nested(mf.node):
+                if isinstance(n, ast.Call) and isinstance(n.func, ast.Attribute) and n.func.attr in ("add", "append", "update", "extend", "remove", "discard"):
+                    b = n.func.value
+                    while isinstance(b, ast.Attribute) and not (isinstance(b.value, ast.Name) and b.value.id == "self"):
+                        b = b.value
+                    if isinstance(b, ast.Attribute) and isinstance(b.value, ast.Name) and b.value.id == "self":
+                        mutated_in_visits.setdefault(b.attr, mf.qualname)
+    if not mutated_in_visits:
+        raise AnalysisError("no per-statement accumulators found in DAGAnalyzer visit_* methods")
+    for loop_owner in (vs, P.func(f"{DAGMOD}.HRDAGAnalyzer.visit_HRuleset")):
+        gl = CFG(loop_owner.node)
+        # the statement visit inside the per-statement loop: self.visit(<loop variable>)
+        rec = []
+        for n in gl.nodes:
+            if n.kind != "stmt" or n.stmt is None:
+                continue
+            lp = getattr(n.stmt, "_parent", None)
+            while lp is not None and not isinstance(lp, ast.For):
+                lp = getattr(lp, "_parent", None)
+            if lp is None or not isinstance(lp.target, ast.Name):
+                continue
+            if any(src(c.func) == "self.visit" and c.args and src(c.args[0]) == lp.target.id for c in gl.calls_at(n)) \
+                    and _records_dependencies(P, loop_owner, lp):
+                rec.append(n)
+        if not rec:
+            raise AnalysisError(f"{loop_owner.qualname}: per-statement self.visit(<loop variable>) not found")
+        loop_node = getattr(rec[0].stmt, "_parent", None)
+        while loop_node is not None and not isinstance(loop_node, ast.For):
+            loop_node = getattr(loop_node, "_parent", None)
+        H = [n for n in gl.nodes if n.kind == "loop" and n.stmt is loop_node]
+        for attr, where in sorted(mutated_in_visits.items()):
+            def resets(n, attr=attr) -> bool:
+                if n.kind == "stmt" and isinstance(n.stmt, ast.Assign) and any(src(t) == f"self.{attr}" for t in n.stmt.targets):
+                    return True
+                for c in gl.calls_at(n):  # one level of self-method wrappers
+                    if isinstance(c.func, ast.Attribute) and isinstance(c.func.value, ast.Name) and c.func.value.id == "self":
+                        for tq in P.resolve_call(loop_owner, c)[:4]:
+                            hf = P.functions.get(tq)
+                            if hf and not hf.name.startswith("visit") and any(
+                                    isinstance(x, ast.Assign) and any(src(t) == f"self.{attr}" for t in x.targets) for x in hf.node.body):
+                                return True
+                return False
+            key = f"{loop_owner.name}/self.{attr}"
+            rep.instance(rule, key, nontrivial=True, sample={"loop": loop_owner.qualname, "accumulator": f"self.{attr}", "mutated_in": where})
+            for r0 in rec:
+                p = gl.path_avoiding(r0, lambda n: n in H or n is gl.exit, resets, follow_exc=False)
+                if p is not None:
+                    rep.add(Finding(rule, f"{rule}/{key}", loop_owner.module.rel, r0.lineno, loop_owner.qualname,
+                                    f"self.{attr} (filled by {where}) is not re-initialised between two statements: names collected for one "
+                                    f"statement leak into the analysis of every later-written statement", describe_path(p)))
+                    break
+    return mutated_in_visits
